@@ -101,6 +101,9 @@ def run_case(case):
             for p in cb.parities:
                 l = p["level"]
                 ss = [s["size"] for s in p["splits"]]
+                if p.get("legacy"):
+                    # format 2 (one file per level, hash size 16) records no size: the file size is the size
+                    ss = [os.path.getsize(b.ppaths(l)[0])]
                 sizes[l] = ss
                 for si, sz in enumerate(ss):
                     if sz % cb.blocksize != 0:
